@@ -1240,6 +1240,14 @@ class Interp:
             return str(recv)
         if isinstance(recv, tuple) and recv and recv[0] == "Some" and m in ("unwrap", "expect"):
             return recv[1]
+        # Option combinators (None is Python None, Some(x) is ("Some", x))
+        if m in ("and_then", "unwrap_or", "unwrap_or_else", "unwrap_or_default") and (recv is None or (isinstance(recv, tuple) and recv and recv[0] == "Some")):
+            if m == "and_then":
+                return None if recv is None else self.apply(args[0], recv[1])
+            if m == "unwrap_or":
+                return args[0] if recv is None else recv[1]
+            if m == "unwrap_or_else":
+                return self.apply(args[0]) if recv is None else recv[1]
         if m in _CHAR_PREDS and not isinstance(recv, list):
             if isinstance(recv, str) and not isinstance(recv, RChar):      # str::is_ascii
                 if m == "is_ascii":
@@ -1269,6 +1277,12 @@ class Interp:
                 return list(recv.encode("utf-8"))
             if m == "starts_with":
                 return recv.startswith(args[0])
+            if m == "ends_with":
+                return recv.endswith(args[0])
+            if m == "strip_prefix" and isinstance(args[0], str):
+                return ("Some", recv[len(args[0]):]) if recv.startswith(args[0]) else None
+            if m == "strip_suffix" and isinstance(args[0], str):
+                return ("Some", recv[:len(recv) - len(args[0])]) if recv.endswith(args[0]) and args[0] != "" else (("Some", recv) if args[0] == "" else None)
             if m in ("as_str", "as_ref", "to_string", "to_owned", "clone", "into", "borrow"):
                 return recv
             if m == "push_str":
